@@ -81,7 +81,7 @@ func (g *Gen) Token() string {
 	return fmt.Sprintf("zq%dx%s", g.serial, g.letters(g.rng(5, 7)))
 }
 
-var dressings = []string{"ascii", "ascii", "ascii", "space", "unicode", "astral", "dollar", "digits", "escape", "html", "long", "empty", "jsonish", "b64ish", "upper", "pad", "pademail", "bslash", "addr", "lookalike", "percent"}
+var dressings = []string{"ascii", "ascii", "ascii", "space", "unicode", "astral", "dollar", "digits", "escape", "html", "long", "empty", "jsonish", "b64ish", "upper", "pad", "pademail", "bslash", "addr", "lookalike", "percent", "nfd"}
 
 // SensString returns the contents of a sensitive ordinary string.
 func (g *Gen) SensString() string {
@@ -128,6 +128,10 @@ func (g *Gen) Dress(d string) string {
 		return ""
 	case "jsonish":
 		return `{"` + t + `":[1,"x"]}`
+	case "nfd":
+		// text that is not in Unicode normalisation form C: a letter followed by a combining mark, marks in
+		// non-canonical order, Hangul jamo, Angstrom / Ohm signs, CJK compatibility ideographs - the bytes are the value
+		return t + g.pick("e\u0301", "a\u0323\u0302 o\u0302\u0323", "\u1100\u1161\u11a8", "\u212b \u2126", "\ufa30\uf900", "n\u0303o", "\u0041\u030a")
 	case "percent":
 		// percent signs: URL-encoded text, LIKE patterns, prices - and printf verbs for anything that formats with it
 		return t + g.pick(" 50% off", "%20name", " %smith%", " 5%%", " 100%d %v %s", "%", " %!s(MISSING)", " %[1]q %x")
@@ -299,7 +303,7 @@ func (g *Gen) LitClass(class, slot string) *Node {
 	case "oid":
 		return ObjN("$oid", sens(StrN(g.OID()), "oid", slot))
 	case "b64":
-		return ObjN("$binary", ObjN("base64", sens(StrN(g.B64()), "b64", slot), "subType", KeepS(g.pick("00", "04", "0", "80"))))
+		return ObjN("$binary", ObjN("base64", sens(StrN(g.B64()), "b64", slot), "subType", KeepS(g.pick("00", "04", "0", "80", "4", "3", "03", "09", "8"))))
 	case "num":
 		return sens(NumN(g.Number()), "num", slot)
 	case "bool":
